@@ -414,6 +414,8 @@ func init() { props["C12"] = runC12 }
 func runC12(c *Ctx) {
 	codec.Init()
 	cm := codec.GetCodecManager()
+	var prevEnc []byte
+	var prevHex, prevID, aliased string
 	rng := NewRng(c.Seed)
 	per := c.Budget(200, 2500)
 	id := 0
@@ -486,6 +488,11 @@ func runC12(c *Ctx) {
 			msg := kd.build(vs)
 			p := safeCall(func() {
 				enc = cm.Encode(codec.CodecTypeSeata, msg)
+				// the bytes of the PREVIOUS message must not change when another message is encoded
+				if prevEnc != nil && hx(prevEnc) != prevHex && aliased == "" {
+					aliased = fmt.Sprintf("the encoding of %s changed when %s was encoded", prevID, cid)
+				}
+				prevEnc, prevHex, prevID = enc, hx(enc), cid
 				if enc != nil && within {
 					back := cm.Decode(codec.CodecTypeSeata, enc)
 					if back != nil {
@@ -535,6 +542,10 @@ func runC12(c *Ctx) {
 					}
 				} else {
 					detail = fmt.Sprintf("kind=%s decoded=%.200s want=%.200s panic=%s", kd.name, fvs(dec), fvs(want), p)
+				}
+				if ok && aliased != "" {
+					ok, detail = false, "encoded_bytes_not_owned_by_the_caller: "+aliased
+					aliased = ""
 				}
 				c.Out.Oracle(cid, ok, "roundtrip", detail)
 			}
